@@ -21,6 +21,7 @@ pub static PROP: Prop = Prop {
     rule: "(50%) straight-line programs over Var::new, the eleven operator overloads, operation (m -> n) and fn_operation with arbitrary sharing and repeated outputs, optionally with a handle smuggled out of the builder: structure of the built term, evaluation of the term (variable edges read as 1 -> N copies) and of forget(term) against direct evaluation of the program on random u64 inputs; (50%) arbitrary generated lax terms containing variable-labelled edges of any arity and label mix (empty source list with mixed targets, 0 -> 0, pending pairs): forget and forget_monogamous compared up to isomorphism with the definition on the plain model; non-trivial = programs with >= 2 operators sharing a variable, or forget cases with >= 1 uniform and >= 1 non-uniform variable edge; distinct = hash of the program / term",
     assumptions: &["division by zero and shifts are given a total wrapping semantics in both the interpreter and the direct evaluation (x/0 = 0, shift amount mod 64)"],
     fixed: Some(fixed),
+    scale: None,
 };
 
 #[derive(Clone, Debug, Hash)]
